@@ -84,8 +84,9 @@ func (x *Exec) fround(exact *Term, st *State, at ast.Node) *Term {
 var two43 = new(big.Rat).SetInt(new(big.Int).Lsh(big.NewInt(1), 43))
 
 // roundedVar: fresh real r constrained by correct rounding of `exact`:
-//   |r - exact| <= |exact| * 2^-53  (+ 2^-1075 for a non-zero product/quotient that may underflow)
-//   exact * 1024 integral and |exact| < 2^43  =>  r == exact   (such values have <= 53 significant bits)
+//
+//	|r - exact| <= |exact| * 2^-53  (+ 2^-1075 for a non-zero product/quotient that may underflow)
+//	exact * 1024 integral and |exact| < 2^43  =>  r == exact   (such values have <= 53 significant bits)
 func (x *Exec) roundedVar(exact *Term, st *State, mayUnderflow bool) *Term {
 	// IEEE operations are functions of their operands: the same exact value rounds to the same double
 	if x.roundCache == nil {
@@ -202,6 +203,11 @@ func (x *Exec) calleeOf(call *ast.CallExpr) (types.Object, ast.Expr) {
 			return sel.Obj(), f.X
 		}
 		return x.info().Uses[f.Sel], nil
+	case *ast.IndexExpr:
+		// explicit instantiation of a generic helper: lat[*Solar](l, i)
+		c2 := *call
+		c2.Fun = f.X
+		return x.calleeOf(&c2)
 	case *ast.ParenExpr:
 		return nil, nil
 	}
@@ -386,6 +392,52 @@ func (x *Exec) evalModuleCall(o *types.Func, recvExpr ast.Expr, call *ast.CallEx
 			return IntV{mkFDiv(x.evalInt(call.Args[0], st), x.evalInt(call.Args[1], st))}
 		case "modf":
 			return IntV{mkFMod(x.evalInt(call.Args[0], st), x.evalInt(call.Args[1], st))}
+		case "llen":
+			l, ok := x.eval(call.Args[0], st).(*ListV)
+			if !ok {
+				unsup("llen of non-list")
+			}
+			n := mkInt(0)
+			for i := range l.Elems {
+				n = mkAdd(n, mkIte(l.cond(i), mkInt(1), mkInt(0)))
+			}
+			return IntV{n}
+		case "lat":
+			l, ok := x.eval(call.Args[0], st).(*ListV)
+			if !ok {
+				unsup("lat of non-list")
+			}
+			if !l.allPresent() {
+				unsup("lat on a list with conditionally present elements")
+			}
+			idx := x.evalInt(call.Args[1], st)
+			var elems []Value
+			for _, e := range l.Elems {
+				if b, ok := e.(*BoxV); ok {
+					elems = append(elems, b.V)
+				} else {
+					elems = append(elems, e)
+				}
+			}
+			if len(elems) == 0 {
+				unsup("lat on empty list")
+			}
+			return x.selectElem(elems, idx, nil)
+		case "lhas":
+			l, ok := x.eval(call.Args[0], st).(*ListV)
+			if !ok {
+				unsup("lhas of non-list")
+			}
+			v := x.eval(call.Args[1], st)
+			res := tFalse
+			for i, e := range l.Elems {
+				ev := e
+				if b, ok := e.(*BoxV); ok {
+					ev = b.V
+				}
+				res = mkOr(res, mkAnd(l.cond(i), x.valuesEqual(ev, v, st)))
+			}
+			return BoolV{res}
 		case "rfloor":
 			v := x.eval(call.Args[0], st)
 			switch a := v.(type) {
@@ -539,10 +591,16 @@ func (x *Exec) evalStdCall(o *types.Func, recvExpr ast.Expr, call *ast.CallExpr,
 		arg := x.eval(call.Args[0], st)
 		bx := x.box(arg, x.info().TypeOf(call.Args[0]), st)
 		n := &ListV{}
+		conds := make([]*Term, len(lv.Elems))
+		for i := range lv.Elems {
+			conds[i] = lv.cond(i)
+		}
 		if o.Name() == "PushBack" {
 			n.Elems = append(append([]Value{}, lv.Elems...), bx)
+			n.Conds = append(conds, tTrue)
 		} else {
 			n.Elems = append([]Value{bx}, lv.Elems...)
+			n.Conds = append([]*Term{tTrue}, conds...)
 		}
 		x.assignTo(recvExpr, n, st)
 		return OpaqueV{Why: "list element"}
@@ -553,6 +611,9 @@ func (x *Exec) evalStdCall(o *types.Func, recvExpr ast.Expr, call *ast.CallExpr,
 			unsup("Front on %T", l)
 		}
 		x.requireListNonNil(lv, st, call)
+		if !lv.allPresent() {
+			unsup("Front() on a list with conditionally present elements outside the for-each pattern")
+		}
 		return &ElemV{L: lv, Idx: 0}
 	case "(*container/list.List).Back":
 		l := x.eval(recvExpr, st)
@@ -561,6 +622,9 @@ func (x *Exec) evalStdCall(o *types.Func, recvExpr ast.Expr, call *ast.CallExpr,
 			unsup("Back on %T", l)
 		}
 		x.requireListNonNil(lv, st, call)
+		if !lv.allPresent() {
+			unsup("Back() on a list with conditionally present elements")
+		}
 		if len(lv.Elems) == 0 {
 			return &ElemV{L: lv, Idx: 0}
 		}
@@ -571,7 +635,11 @@ func (x *Exec) evalStdCall(o *types.Func, recvExpr ast.Expr, call *ast.CallExpr,
 		if !ok {
 			unsup("Len on %T", l)
 		}
-		return IntV{mkInt(int64(len(lv.Elems)))}
+		n := mkInt(0)
+		for i := range lv.Elems {
+			n = mkAdd(n, mkIte(lv.cond(i), mkInt(1), mkInt(0)))
+		}
+		return IntV{n}
 	case "(*container/list.Element).Next":
 		e := x.eval(recvExpr, st)
 		ev, ok := e.(*ElemV)
